@@ -7,7 +7,7 @@ import common
 
 
 def gen_and_replay(run, module, nontrivial=None, only=None, sigfn=None, check_log=True, timeout=3000, heap="8g",
-                   quick_cfg=None, thorough_cfg=None, extra_env=None, deadline_ms=1000):
+                   quick_cfg=None, thorough_cfg=None, extra_env=None, deadline_ms=4000):
     thorough = run.tier == "thorough"
     if only is not None:
         vecs = only
